@@ -287,6 +287,33 @@ class Index:
         self._mro_cache[qual] = res
         return res
 
+    def const_node(self, modname: str, expr: ast.AST, cls: Optional["ClassInfo"] = None, depth: int = 0) -> Optional[ast.Constant]:
+        """The literal an expression stands for: the Constant itself, or -- for a Name bound once at module level, or a
+        `self.X` / `cls.X` / `Class.X` bound in the class body -- the Constant it is bound to.  None otherwise.  Lets rules
+        read a literal whether it is written in place or hoisted into a named constant."""
+        if isinstance(expr, ast.Constant):
+            return expr
+        if depth > 3:
+            return None
+        if isinstance(expr, ast.Name):
+            v = self.module_assigns.get(modname, {}).get(expr.id)
+            return self.const_node(modname, v, cls, depth + 1) if v is not None else None
+        if isinstance(expr, ast.Attribute) and isinstance(expr.value, ast.Name):
+            owner = None
+            if expr.value.id in ("self", "cls") and cls is not None:
+                owner = cls
+            else:
+                q = self.resolve(modname, expr.value)
+                owner = self.classes.get(q) if q else None
+            seen = 0
+            while owner is not None and seen < 6:
+                if expr.attr in owner.class_attrs:
+                    return self.const_node(owner.unit.modname, owner.class_attrs[expr.attr], owner, depth + 1)
+                nxt = next((b for b in owner.bases if b and b in self.classes), None)
+                owner = self.classes.get(nxt) if nxt else None
+                seen += 1
+        return None
+
     def find_method(self, cls_qual: str, name: str) -> Optional[FuncInfo]:
         for q in self.mro(cls_qual):
             c = self.classes.get(q)
